@@ -450,6 +450,8 @@ def _run(pid, cfg, tier, seed, repo, work, t0):
         # a false alarm), its absence leaves the verdict undecided.  Labelled bounded, never counted as proved.
         from . import replay as rp
         fails, out = rp.run_oracles(cfg["replay"], repo, work, seed)
+        if out.startswith("ORACLE-BUILD-FAILED"):
+            undecided.append("bounded stand-in: the executable oracles do not build against this tree: " + " ".join(re.findall(r"error(?:\[E\d+\])?: [^\n]*", out)[:2])[:300])
         mine = [x for x in fails if pid in x.get("props", [])]
         known_open = [k for k in load_known() if k.get("property") == pid and k.get("status") == "open"]
         ev["coverage"]["bounded_standin"] = dict(reason="verifier undecided: " + "; ".join(undecided)[:400], oracle_groups=cfg["replay"], seed=seed,
